@@ -107,6 +107,10 @@ pub struct Counter32 { x: u8 }
 impl Counter32 {
     #[verifier::external_body]
     pub fn fetch_sub(&mut self, n: u32) -> u32 { unimplemented!() }
+    #[verifier::external_body]
+    pub fn load(&self) -> u32 { unimplemented!() }
+    #[verifier::external_body]
+    pub fn store(&mut self, v: u32) { unimplemented!() }
 }
 // std::path::Path / tokio::fs::create_dir_all as used by purge (directory re-creation; A-io, Ok assumed)
 pub struct Path { pub x: u8 }
@@ -293,6 +297,7 @@ impl Topic {
         ensures
             final(self).stream_id == old(self).stream_id && final(self).topic_id == old(self).topic_id,
             final(self).consumer_groups == old(self).consumer_groups && final(self).consumer_groups_ids == old(self).consumer_groups_ids,
+            final(self).storage == old(self).storage && final(self).current_consumer_group_id == old(self).current_consumer_group_id,
             match r {
                 Ok(p) => old(self).partitions@.contains_key(partition_id) && *p == old(self).partitions@[partition_id]
                     && final(self).partitions@ == old(self).partitions@.insert(partition_id, *final(p)),
@@ -346,12 +351,14 @@ pub open spec fn topic_paths_ok(t: &Topic) -> bool {
 pub open spec fn topic_frame(a: &Topic, b: &Topic, pid: u32) -> bool {
     &&& a.stream_id == b.stream_id && a.topic_id == b.topic_id
     &&& a.consumer_groups == b.consumer_groups && a.consumer_groups_ids == b.consumer_groups_ids
+    &&& a.storage == b.storage && a.current_consumer_group_id == b.current_consumer_group_id
     &&& forall|q: u32| #![trigger a.partitions@.contains_key(q)] #![trigger b.partitions@.contains_key(q)] a.partitions@.contains_key(q) == b.partitions@.contains_key(q)
     &&& forall|q: u32| #![trigger b.partitions@[q]] q != pid && a.partitions@.contains_key(q) ==> b.partitions@[q] == a.partitions@[q]
 }
 pub open spec fn topic_unchanged(a: &Topic, b: &Topic) -> bool {
     &&& a.stream_id == b.stream_id && a.topic_id == b.topic_id
     &&& a.consumer_groups == b.consumer_groups && a.consumer_groups_ids == b.consumer_groups_ids
+    &&& a.storage == b.storage && a.current_consumer_group_id == b.current_consumer_group_id
     &&& forall|q: u32| #![trigger a.partitions@.contains_key(q)] #![trigger b.partitions@.contains_key(q)] a.partitions@.contains_key(q) == b.partitions@.contains_key(q)
     &&& forall|q: u32| #![trigger b.partitions@[q]] a.partitions@.contains_key(q) ==> unchanged(&a.partitions@[q], &b.partitions@[q])
 }
@@ -371,4 +378,50 @@ pub open spec fn topic_delete_post(a: &Topic, b: &Topic, pid: u32, pc: PollingCo
     &&& ok ==> files(&b.partitions@[pid]) =~= files(&a.partitions@[pid]).remove((dir_of(&a.partitions@[pid], pc_kind(pc)), pc_id(pc)))
     &&& !ok ==> unchanged(&a.partitions@[pid], &b.partitions@[pid])
     &&& rest_same(&a.partitions@[pid], &b.partitions@[pid])
+}
+
+// --- Topic::delete_consumer_group: iteration over the partition table (R8 map-iteration schema, as in unit
+// consumer_group): (key, exclusive value reference) pairs in the map's (unspecified) iteration order; what is
+// written through the i-th reference is what the map holds under the i-th key once the borrow ends.
+pub open spec fn order_of<K, V>(m: Map<K, V>, ks: Seq<K>) -> bool {
+    &&& ks.no_duplicates()
+    &&& ks.len() == m.len()
+    &&& forall|k: K| m.contains_key(k) <==> ks.contains(k)
+    &&& forall|i: int| 0 <= i < ks.len() ==> m.contains_key(#[trigger] ks[i])
+}
+impl<K, V> HashMap<K, V> {
+    pub uninterp spec fn iter_order(&self) -> Seq<K>;
+    #[verifier::external_body]
+    pub fn iter_mut_collect<'a>(&'a mut self) -> (r: Vec<(&'a K, &'a mut V)>)
+        ensures
+            order_of(old(self)@, old(self).iter_order()),
+            r@.len() == old(self).iter_order().len(),
+            forall|k: K| final(self)@.contains_key(k) <==> old(self)@.contains_key(k),
+            forall|i: int| 0 <= i < r@.len() ==> *(#[trigger] r@[i]).0 == old(self).iter_order()[i]
+                && *r@[i].1 == old(self)@[old(self).iter_order()[i]],
+            forall|i: int| 0 <= i < r@.len() ==> *final((#[trigger] r@[i]).1) == final(self)@[old(self).iter_order()[i]],
+    { unimplemented!() }
+}
+// the group's entry (and nothing else) leaves partition a, giving b — entry level (helper of the loop)
+pub open spec fn group_entry_removed(a: &Partition, b: &Partition, g: u32) -> bool {
+    &&& b.consumer_group_offsets@ =~= a.consumer_group_offsets@.remove(g)
+    &&& b.consumer_offsets == a.consumer_offsets
+    &&& b.storage == a.storage
+    &&& rest_same(a, b)
+}
+// the topic-level offset directory (the storage handle the topic deletes through)
+pub open spec fn tfiles(t: &Topic) -> Map<(Seq<char>, u32), u64> { t.storage.partition.files() }
+// the group-offset file of partition p for group g
+pub open spec fn gfile(p: &Partition, g: u32) -> (Seq<char>, u32) { (p.consumer_group_offsets_path@, g) }
+// catalogue invariant used to name the deleted group (C06's subject; assumed here): entries are keyed by their id
+pub open spec fn groups_keyed(t: &Topic) -> bool {
+    forall|k: u32| #[trigger] t.consumer_groups@.contains_key(k) ==> t.consumer_groups@[k].group_id == k
+}
+
+// --- System::poll_messages (auto-commit block): the read itself is C02's subject ---
+impl Topic {
+    // topics/messages.rs: reads messages of one partition for a consumer; `&self` and no write to offsets
+    #[verifier::external_body]
+    pub fn get_messages(&self, consumer: PollingConsumer, partition_id: u32, strategy: PollingStrategy, count: u32) -> (r: Result<PolledMessages, IggyError>)
+    { unimplemented!() }
 }
